@@ -21,6 +21,27 @@ def C(name, test, tmod, **kw):
 
 
 CHECKS = {
+    'C03': {
+        'level': 'model_checking',
+        'jobs': [
+            T('MC_Req', 'Req_q03.cfg'),
+            T('MC_Req', 'Req_1ctx.cfg', tiers=('thorough',)),
+            T('MC_Req', 'Req_2ctx_retry.cfg', tiers=('thorough',)),
+            T('MC_Req', 'Req_2ctx_deadl.cfg', tiers=('thorough',)),
+            C('req', 'TestReq', 'TraceReq', n={'quick': 120, 'thorough': 1500}),
+        ],
+        'assumptions': ASSUME_COMMON,
+    },
+    'C04': {
+        'level': 'model_checking',
+        'jobs': [
+            T('MC_Req', 'Req_q04.cfg'),
+            T('MC_Req', 'Req_2ctx_retry.cfg', tiers=('thorough',)),
+            T('MC_Req', 'Req_1ctx_all.cfg', tiers=('thorough',)),
+            C('req', 'TestReq', 'TraceReq', n={'quick': 60, 'thorough': 1000}, env={'VERIF_REQ_MIX': 'faults'}),
+        ],
+        'assumptions': ASSUME_COMMON,
+    },
     'C13': {
         'level': 'model_checking',
         'jobs': [
